@@ -100,6 +100,38 @@ def run(tier):
         rc1 = 1
     elif linc and rc1 == 0:
         rc1 = 2
+    # (iv) table-entry encodings of the driver (integral_indices!) for every value of i8 / i16 / i32
+    from vlib import kernel
+    crate = K.KaniCrate("k_c08_idx")
+    crate.write("lib.rs", open(os.path.join(K.VERIF, "engines", "kernels", "indices_lib.rs")).read())
+    crate.check_compiles()
+    hs = ["h::indices_i8", "h::indices_i16", "h::indices_i32"]
+    res = K.run_kani(crate, hs, timeout_s=900)
+    ev = json.load(open(evp))
+    idx = []
+    for h in hs:
+        r = res[h]
+        idx.append({"harness": h, "status": r.status, "wall_s": round(r.wall_s, 1)})
+        if r.status == "FAILED":
+            rep, plog = kernel.playback_native(crate, h, 900)
+            key = "indices:" + h
+            if rep and key not in known:
+                path = K.save_replay(PID, key.replace(":", "_"), {"playback.log": plog})
+                print("VIOLATION property=%s replay=%s" % (PID, path))
+                print("  %s: %s (replayed natively)" % (h, r.failed_checks[:2]))
+                ev["violations"] = ev.get("violations", 0) + 1
+                rc1 = 1
+            elif not rep:
+                print("INCONCLUSIVE: %s failed but does not replay" % h)
+                rc1 = max(rc1, 2)
+        elif r.status != "SUCCESSFUL":
+            print("INCONCLUSIVE: %s %s" % (h, r.status))
+            rc1 = max(rc1, 2) if rc1 != 1 else 1
+    ev["coverage"]["indices_stage"] = idx
+    ev["coverage"]["obligations"] = ev["coverage"].get("obligations", 0) + len(hs)
+    ev["coverage"]["discharged"] = ev["coverage"].get("discharged", 0) + sum(1 for x in idx if x["status"] == "SUCCESSFUL")
+    ev["assumptions"].append("C08(iv): integral_indices! (as_shift/as_reduce/is_*) for EVERY value of i8, i16, i32: no overflow, exactly one kind, decode(encode)=id incl. the most negative entry")
+    json.dump(ev, open(evp, "w"), indent=1)
     # (ii) driver
     return e3.add_stage(PID, tier, rc1, ["plain", "errors", "recovery", "recovery_errors"], {"C08"},
                         ["C08(ii): every explored path of the real driver returns (no panic, no `cannot find token at EOF`, no `lookahead and token_index mismatched`, no unwrap on an empty stack) within the step bound; "
